@@ -204,6 +204,22 @@ def _routing(prog: Program, res: Result):
                 return Seq([Rat.atom("G"), Rat.atom("G_BHW")], "tuple")
             if fname in ("np.arange", "numpy.arange") and all(isinstance(a, Rat) for a in args):
                 return Arr(sym._plain_call("ARANGE", list(args)), None)
+            if fname in ("np.array", "np.asarray", "numpy.array", "numpy.asarray") and args and isinstance(args[0], Rat):
+                return sym._plain_call("ARRAY", [args[0]])
+            if fname in ("np.tile", "numpy.tile") and len(args) == 2 and all(isinstance(a, Rat) for a in args):
+                return sym._plain_call("REPEAT_PROFILE", list(args))
+            return None
+
+        def on_stmt(self, s, st, eng):
+            # list * n  repeats the whole profile (the raw loads are a Python list until wrapped by np.array)
+            if isinstance(s, ast.Assign) and isinstance(s.value, ast.BinOp) and isinstance(s.value.op, ast.Mult):
+                a, b = eng.eval(s.value.left, st), eng.eval(s.value.right, st)
+                for x, n in ((a, b), (b, a)):
+                    if isinstance(x, Rat) and x == Rat.atom("self.hourly_extraction_ground_loads") and isinstance(n, Rat):
+                        val = sym._plain_call("REPEAT_PROFILE", [x, n])
+                        for t in s.targets:
+                            eng._assign_target(t, val, s, st)
+                        return [st]
             return None
 
     eng = Engine(prog, fi, H())
@@ -243,18 +259,10 @@ def _routing(prog: Program, res: Result):
         elif meth == "HOURLY":
             n_y += 1
             L, T = args[0], args[1]
-            base = Rat.atom("self.hourly_extraction_ground_loads")
-            okl = False
-            if isinstance(L, Rat):
-                r = L / base
-                # -1 (or -(repetition count) in this scalar view of list repetition): exactly one negation
-                okl = "self.hourly_extraction_ground_loads" not in "".join(r.all_atoms()) and _leading_sign(r) < 0
-            elif isinstance(L, Arr):
-                r = L.elem / sym.elem_atom("self.hourly_extraction_ground_loads", 0)
-                okl = not sym.has_elem(r) and _leading_sign(r) < 0
-            res.ob("R09.2", f"[HOURLY] loads = extraction loads negated once (extraction -> rejection) (got {vkey(L)[:70]})", okl, where)
+            okl, why = _hourly_loads_ok(L)
+            res.ob("R09.2", f"[HOURLY] loads = the extraction profile (repeated whole when the run is longer), negated once, unscaled (got {vkey(L)[:70]})", okl, where)
             if not okl:
-                res.violation("R09.2", f"hourly-sign|{vkey(L)[:80]}", where, q, f"[HOURLY] the loads passed on are {vkey(L)[:120]}: extraction loads must be negated exactly once")
+                res.violation("R09.2", f"hourly-loads|{why[:60]}|{vkey(L)[:60]}", where, q, f"[HOURLY] the loads passed on are {vkey(L)[:140]}: {why}")
             okt = isinstance(T, Arr) and T.elem.key().startswith("ARANGE(1, ") and T.elem.key().endswith(", 1)") and "1 + " in T.elem.key()
             res.ob("R09.2", f"[HOURLY] hour axis is arange(1, n + 1, 1) (got {vkey(T)[:70]})", okt, where)
             if not okt:
@@ -263,6 +271,42 @@ def _routing(prog: Program, res: Result):
     res.count("hourly_paths", n_y)
     res.floor("hybrid_paths", 1)
     res.floor("hourly_paths", 1)
+
+
+def _hourly_loads_ok(L):
+    """L must be  (-1) * [ARRAY | REPEAT_PROFILE]*(self.hourly_extraction_ground_loads): one negation, no scaling,
+    the profile repeated as a whole (list * n / np.tile), never element-wise"""
+    from ..paths import _single_atom
+
+    sign = 1
+    cur = L
+    for _ in range(8):
+        if isinstance(cur, Arr):
+            return False, "element-wise expression where the load profile was expected"
+        if not isinstance(cur, Rat):
+            return False, f"not a numeric profile ({vkey(cur)[:60]})"
+        if not (cur.d.is_const() and cur.n.is_monomial()):
+            return False, "the profile is combined with other terms"
+        (mono, c), = cur.n.t.items()
+        c = c / cur.d.const_value()
+        if len(mono) != 1 or mono[0][1] != 1:
+            return False, "the profile is multiplied by another quantity (scaled instead of repeated / negated)"
+        if c not in (1, -1):
+            return False, f"the profile is scaled by {c}"
+        if c == -1:
+            sign = -sign
+        atom = mono[0][0]
+        if atom == "self.hourly_extraction_ground_loads":
+            if sign != -1:
+                return False, "extraction loads must be negated exactly once (extraction -> rejection)"
+            return True, "ok"
+        df = sym.ATOM_DEF.get(atom)
+        if df and df[0] == "call" and df[1] in ("ARRAY", "REPEAT_PROFILE") and isinstance(df[2][0], Rat):
+            cur = df[2][0]
+            continue
+        fn = df[1] if df and df[0] == "call" else atom
+        return False, f"'{fn}' does not repeat the annual profile as a whole (np.repeat repeats every element; use list * n or np.tile)"
+    return False, "too deeply nested"
 
 
 def _leading_sign(r: Rat) -> int:
@@ -364,6 +408,16 @@ VARIANTS = [
     Variant("time differences taken to the step's end instead of its start", "break", [(GHX, "            _time = time_values[i] - time_values[0:i]", "            _time = time_values[i] - time_values[1 : i + 1]")], "R09.1"),
     Variant("two-day response without the borehole resistance term", "break", [(GL, "            tf_mean = delta_tb_i + q[n] * resist_bh", "            tf_mean = delta_tb_i")], "R09.4"),
     Variant("nominal two-day profile not scaled by the peak", "break", [(GL, "                (two_day_hourly_peak_load[i] - avg_load) / peak_load * two_day_hourly_peak_load[i]", "                (two_day_hourly_peak_load[i] - avg_load) * two_day_hourly_peak_load[i]")], "R09.4"),
+    Variant("annual profile repeated element-wise (np.repeat) for multi-year hourly runs", "break",
+            [(GHX, "            q_dot = self.hourly_extraction_ground_loads\n", "            q_dot = -1.0 * np.asarray(self.hourly_extraction_ground_loads, dtype=float)\n"),
+             (GHX, "                q_dot = q_dot * n_years\n", "                q_dot = np.repeat(q_dot, n_years)\n"),
+             (GHX, "            q_dot = -1.0 * np.array(q_dot)  # Convert loads to rejection\n", "")], "R09.2"),
+    Variant("hourly loads converted to an array first, then 'repeated' by multiplication (scales instead)", "break",
+            [(GHX, "            q_dot = self.hourly_extraction_ground_loads\n", "            q_dot = np.array(self.hourly_extraction_ground_loads)\n")], "R09.2"),
+    Variant("annual profile tiled with np.tile after conversion", "benign",
+            [(GHX, "            q_dot = self.hourly_extraction_ground_loads\n", "            q_dot = -1.0 * np.asarray(self.hourly_extraction_ground_loads)\n"),
+             (GHX, "                q_dot = q_dot * n_years\n", "                q_dot = np.tile(q_dot, n_years)\n"),
+             (GHX, "            q_dot = -1.0 * np.array(q_dot)  # Convert loads to rejection\n", "")]),
     Variant("a / h / k rewritten as a / (h * k)", "benign", [(GHX, "            delta_tb_i = (q_dot_b_dt[0:i] / h / two_pi_k).dot(g_values)", "            delta_tb_i = (q_dot_b_dt[0:i] / (two_pi_k * h)).dot(g_values)")]),
     Variant("tf_bulk renamed and the two corrections merged", "benign",
             [(GHX, "            tf_bulk = tb + q_dot_b[i] / h * rb\n            # T_out = T_f - Q / (2 * m_dot cp)  (Equation 2.14)\n            tf_out = tf_bulk - q_dot_b[i] / (2 * m_dot * cp)",
